@@ -91,7 +91,6 @@ for ch in ("A", "W"):
                                  "base and reference: <=3 segments each, <=2 characters per component; every allocation request may fail"),
        functions=[f % ch for f in RESOLVE_FUNCS], inlined=[f % ch for f in RESOLVE_FUNCS[1:]],
        stubs=["memory manager (ledger stub harness/vmm.h)"],
-       kf=["C06-unrooted-empty-first", "C06-dslash-no-guard"],
        timeout_s=by_tier(900, 7200), mem_gb=by_tier(10, 24))
 
 # ----------------------------------------------------------------------------------------------------------------
